@@ -243,7 +243,22 @@ fn collect<M: mode::Mode>(vars: Vars, props: Propagators, m: M, ids: &[VarId], l
     if sols.len() < lim && it.is_timed_out() { return "TIMEOUT".to_string(); }
     format!("sols {}", if sols.is_empty() { "-".to_string() } else { sols.join(" ") })
 }
+/// searchf with a watchdog (as propf): the engine checks its time limit only between top-level iterations, never inside
+/// search::propagate, so a creeping float propagation (one step per pass over a wide interval) never comes back; the
+/// case runs in a helper thread and is reported as HANG after 10 s (the abandoned thread spins until the process exits).
 pub fn run_searchf(line: &str) -> String {
+    let (tx, rx) = std::sync::mpsc::channel();
+    let l = line.to_string();
+    std::thread::spawn(move || {
+        let r = std::panic::catch_unwind(|| run_searchf_inner(&l)).unwrap_or_else(|_| "PANIC".to_string());
+        let _ = tx.send(r);
+    });
+    match rx.recv_timeout(std::time::Duration::from_millis(10000)) {
+        Ok(r) => r,
+        Err(_) => "HANG".to_string(),
+    }
+}
+fn run_searchf_inner(line: &str) -> String {
     cap_memory();
     let st = psetup(line);
     let entry = st.entry.clone().unwrap_or("first".to_string());
